@@ -96,6 +96,16 @@ type enableDeleteIterator struct {
 	StorageIterator
 }
 
+// Next skips deleted entries: a deleted key stays in the store as a marker with an empty raw value (a rollback leaves one for
+// every key the abandoned momentum created), and a scan must not report it.
+func (i *enableDeleteIterator) Next() bool {
+	for i.StorageIterator.Next() {
+		if len(i.StorageIterator.Value()) != 0 {
+			return true
+		}
+	}
+	return false
+}
 func (i *enableDeleteIterator) Value() []byte {
 	val := i.StorageIterator.Value()
 	if len(val) == 0 {
